@@ -3,10 +3,14 @@ package msgformat
 import (
 	"encoding/binary"
 	"errors"
+	"math"
 )
 
 // Add length prefix to message
 func AddRequestFormat(p []byte) ([]byte, error) {
+	if len(p) > math.MaxUint8 {
+		return nil, errors.New("message too long for a one-byte length prefix")
+	}
 	length := uint8(len(p))
 	prefixed := append([]byte{length}, p...)
 	return prefixed, nil
@@ -26,6 +30,9 @@ func RemoveRequestFormat(p []byte) ([]byte, error) {
 
 // Add length prefix to response, using uint16 instad of uint8 for larger payload
 func AddResponseFormat(p []byte) ([]byte, error) {
+	if len(p) > math.MaxUint16 {
+		return nil, errors.New("message too long for a two-byte length prefix")
+	}
 	length := uint16(len(p))
 	b := make([]byte, 2)
 	binary.BigEndian.PutUint16(b, length)
